@@ -581,6 +581,15 @@ func (s *service) handleSubscribe(ctx context.Context, peerId string, sub *pubsu
 			s.pruneStream(streamId, strm)
 			s.pruneSpace(sub.SpaceId, si)
 		}
+	} else {
+		// nothing was recorded (no topics, only duplicates, or the cap hit on the first new
+		// pattern): drop the placeholder entries created above, so a request that registers
+		// no interest leaves no empty trie / stream record behind
+		if len(spacePatterns) == 0 {
+			delete(strm.bySpace, sub.SpaceId)
+		}
+		s.pruneStream(streamId, strm)
+		s.pruneSpace(sub.SpaceId, si)
 	}
 	s.remoteMu.Unlock()
 
